@@ -361,8 +361,8 @@ var amtGrid = []intS{"nil", "-1", "0", "1", "2", "5000", "60000", intS(gen.Pow10
 var amtPos = []intS{"1", "2", "5000", "60000", intS(gen.Pow10(18).String()), intS(gen.Pow2(64).String())}
 var amtNonNeg = append([]intS{"0"}, amtPos...)
 
-var longDenom = "d" + strings.Repeat("x", 127)      // 128 characters: the longest valid denom
-var tooLongDenom = "d" + strings.Repeat("x", 128)   // 129 characters
+var longDenom = "d" + strings.Repeat("x", 127)    // 128 characters: the longest valid denom
+var tooLongDenom = "d" + strings.Repeat("x", 128) // 129 characters
 var denomGrid = []string{"stake", "btc", "eth", "tka", "utka", "tkb", "", "a", "ab", "1ab", "Stake", "sta ke", "stake!", longDenom, tooLongDenom,
 	"lpt-1", "ibc/27394FB092D2ECCD56123C74F36E4C1F926001CEADA9CA97EA622B25F41E5EB2", "htltbnb", "nosuchdenom"}
 var denomValid = []string{"stake", "stake", "stake", "btc", "tka", "utka", "tkb", "Stake", longDenom, "lpt-1", "htltbnb", "nosuchdenom"}
